@@ -220,7 +220,7 @@ class RunResult(dict):
 
 
 def run_world(seed, build, trace=None, max_steps=100000, yield_prob=1.0,
-              preempt=None, tmp=False, cfg=None):
+              preempt=None, tmp=False, cfg=None, stall_prob=0.0):
     '''
     generic harness:  `build(sim, cfg)` returns a driver function which runs as
     a sim thread; the universe ends when the driver returns.  After that
@@ -237,6 +237,7 @@ def run_world(seed, build, trace=None, max_steps=100000, yield_prob=1.0,
         sim.data['tmp'] = root
     if preempt:
         sim.preempt_files, sim.preempt_prob = preempt
+    sim.stall_prob = stall_prob or 0.0
     res = RunResult(seed=seed, status='ok', violations=[], error=None)
     state = {'done': False, 'err': None}
     cwd = os.getcwd()
